@@ -20,7 +20,6 @@ import (
 	"encoding/json"
 	"fmt"
 	"math/rand"
-	"os"
 	"reflect"
 	"regexp"
 	"sort"
@@ -1468,9 +1467,6 @@ func init() {
 	register("C06", func(r *Result, rng *rand.Rand, tier string) {
 		r.Rule = "histories with >= 2 chains started from one shared handle and >= 2 renderings; distinct = canonical op list"
 		rounds, maxOps := 3000, 14
-		if os.Getenv("C06_SKIP_OLD") != "" {
-			return
-		}
 		if tier == "thorough" {
 			rounds, maxOps = 40000, 30
 		} else if tier == "search" {
